@@ -22,6 +22,7 @@ type Opts struct {
 	NearDay        int  // if != 0: dates cluster around this day number
 	NearSpan       int  // cluster radius in days (default 3)
 	KeepTrailingCR bool // do not strip lone CRs at the end of summary lines
+	TabSeparators  bool // occasionally a tab between entry value and summary (accepted by klog)
 	PlainSummary   bool // ASCII-only summaries without tags
 	NoSummary      bool
 	MaxEntries     int // default 5
@@ -39,7 +40,10 @@ func (o Opts) maxRecords() int {
 var boundaryYears = []int{0, 1, 1582, 1900, 1970, 1999, 2000, 2020, 2023, 2024, 2100, 9998, 9999}
 
 func Day(t *rapid.T, label string) int {
-	switch rapid.IntRange(0, 9).Draw(t, label+"Class") {
+	switch rapid.IntRange(0, 10).Draw(t, label+"Class") {
+	case 10: // end of February in century years (leap-rule exceptions) and other leap years
+		y := rapid.SampledFrom([]int{0, 100, 400, 1700, 1800, 1900, 2000, 2100, 2200, 2300, 2400, 9900, 2024, 2023, 1600}).Draw(t, label+"CY")
+		return clampDay(model.DaysFromCivil(y, 3, 1) + rapid.IntRange(-3, 1).Draw(t, label+"CD"))
 	case 0: // uniform over everything
 		return rapid.IntRange(model.MinDay, model.MaxDay).Draw(t, label)
 	case 1: // boundary years, around new year
@@ -199,8 +203,8 @@ func DurationMins(t *rapid.T, o Opts, label string) int {
 
 var asciiWords = []string{"foo", "bar", "Lunch", "break", "meeting", "with", "Liz", "work", "a", "I", "e-mail", "x_y", "Did", "something", "today.", "(urgent)", "50%", "A&B", "\"quoted\"", "it's", "<b>", "$1", "back\\slash", "end;"}
 var uniWords = []string{"über", "naïve", "日本語", "読む", "Привет", "καλημέρα", "🙂", "é", "İstanbul", "ǅ", "a b", "x\u3000y", "\ufffd", "a\ufffdb", " ", "ẞ"}
-var lookalikes = []string{"1h", "-5m", "+2h30m", "8:00", "8:00 - 9:00", "8:00-?", "2020-01-01", "2020/01/01", "(8h!)", "?", "???", "-", "- 9:00", "<23:00", "1:00>", "12:00am", "!", "()", "24:00", "0m"}
-var tagWords = []string{"#tag", "#Tag", "#TAG", "#work", "#home-office", "#a_b", "#読む", "#ü", "#1", "#tag=v", "#tag=V", "#tag=1-2", "#tag=\"a b\"", "#tag='a b'", "#tag=\"it's\"", "#tag='say \"hi\"'", "#tag=", "#tag=\"\"", "#tag=\"open", "#tag='open", "#a#b", "##c", "#x=y=z", "#work,", "(#work)", "#ticket=891", "#project=\"22/48.3\"", "#Ä=ö", "#Straße", "#STRASSE", "#ẞ", "#ß", "#e\u0301", "#😀", "#tag=😀", "#İ", "#i", "#ǅ", "#１２", "#tag=１"}
+var lookalikes = []string{"1h", "30m", "15m", "5m", "59m", "05m", "-5m", "+2h30m", "8:00", "8:00 - 9:00", "8:00-?", "2020-01-01", "2020/01/01", "(8h!)", "?", "???", "-", "- 9:00", "<23:00", "1:00>", "12:00am", "!", "()", "24:00", "0m"}
+var tagWords = []string{"#tag", "#Tag", "#TAG", "#work", "#home-office", "#a_b", "#読む", "#ü", "#1", "#tag=v", "#tag=V", "#tag=1-2", "#tag=\"a b\"", "#tag='a b'", "#tag=\"it's\"", "#tag='say \"hi\"'", "#tag=", "#tag=\"\"", "#tag=\"open", "#tag='open", "#a#b", "##c", "#x=y=z", "#work,", "(#work)", "#ticket=891", "#project=\"22/48.3\"", "#Ä=ö", "#Straße", "#STRASSE", "#ẞ", "#ß", "#e\u0301", "#😀", "#tag=😀", "#İ", "#i", "#ǅ", "#１２", "#tag=１", "#call=\"'Liz'\"", "#call=Liz", "#call='\"Liz\"'", "#size='5\"'", "#who=\"'\""}
 var controlWords = []string{"\x00", "\x1b[31mred\x1b[0m", "a\rb", "\x07", "\x7f", "\u0085", "\ufeff", "\u200b", "\x1b", "cr\r"}
 var invalidWords = []string{"\xff", "\xc3", "a\xe6\x97", "\xf0\x9f\x99", "\xc0\xaf", "\xed\xa0\x80", "ok\xfe"}
 
@@ -363,6 +367,9 @@ func Entry(t *rapid.T, o Opts, allowOpen bool, label string) model.Entry {
 		e.QMarks = rapid.SampledFrom([]int{1, 1, 1, 1, 2, 3, 5, 7}).Draw(t, label+"Q")
 	}
 	e.Summary = EntrySummary(t, o, label+"Sum")
+	if o.TabSeparators && e.Summary[0] != "" && rapid.IntRange(0, 7).Draw(t, label+"TabSep") == 0 {
+		e.Sep = "\t"
+	}
 	return e
 }
 
